@@ -1,6 +1,5 @@
 (* Props/C19.v — pinned statements for property C19 (std.format and % follow printf-style
-   formatting).  Statements closed by [exact lemma], non-vacuity Examples, the part of the
-   goal that is not proved kept as a Definition, and Print Assumptions. *)
+   formatting).  Statements closed by [exact lemma], non-vacuity Examples and Print Assumptions. *)
 From RJ Require Import Base.Outcome Base.F64 Model.Format Proofs.Format_proofs.
 From Coq Require Import Floats.SpecFloat.
 Local Open Scope N_scope.
@@ -123,18 +122,86 @@ Proof. exact pad_reaches_width_refuted. Qed.
 Theorem C19_fmt_prec_limit : exists x p, is_panic (fmt_fixed x p) = true /\ is_panic (fmt_exp x p) = true.
 Proof. exact fmt_prec_limit. Qed.
 
-(* NOT proved (kept as the goal): %e %E digits are the correctly rounded p+1 significant
-   digits of the exact value.  [exp_parts] computes them that way and is compared digit for
-   digit with the implementation on every run; the Coq proof (ilog10 bracket + carry) is
-   missing. *)
-Definition C19_goal_exp_digits : Prop := forall m e (p : N), (- 65535 <= e)%Z ->
-  let '(ds, E) := exp_parts (Z.pos m) e p in
-  lenN ds = p + 1 /\ all_digits ds /\
-  (10 ^ Z.of_N p <= Z.of_N (str_value ds) < 10 ^ (Z.of_N p + 1))%Z /\
-  (let k := (Z.of_N p - E)%Z in
-   2 * Z.abs (Z.of_N (str_value ds) * (2 ^ Z.max (- e) 0 * 10 ^ Z.max (- k) 0)
-              - Z.pos m * 2 ^ Z.max e 0 * 10 ^ Z.max k 0)
-   <= 2 ^ Z.max (- e) 0 * 10 ^ Z.max (- k) 0)%Z.
+(* %e %E: for every binary64 value m*2^e > 0 and EVERY precision (capped-precision path of
+   the repair included) the p+1 digits ds and the exponent E given to the decoration satisfy
+   10^p <= ds < 10^(p+1) and ds = (m*2^e) / 10^(E-p) rounded to nearest, ties to even
+   (integer statement: pa j / pb j is 10^j as a fraction) *)
+Theorem C19_exp_digits_correct : forall s m e prec,
+  (Z.pos m < 2 ^ 53)%Z -> (- 65000 <= e <= 65000)%Z ->
+  exists ds E,
+    capped_exp (S754_finite s m e) prec = Ok (ds, E) /\
+    lenN ds = prec + 1 /\ all_digits ds /\
+    (10 ^ Z.of_N prec <= Z.of_N (str_value ds) < 10 ^ (Z.of_N prec + 1))%Z /\
+    is_rhe (Z.of_N (str_value ds))
+           (Z.pos m * 2 ^ Z.max e 0 * pa (Z.of_N prec - E))%Z
+           (2 ^ Z.max (- e) 0 * pb (Z.of_N prec - E))%Z.
+Proof. exact exp_digits_correct. Qed.
+
+(* ... the decimal exponent: ilog10 is THE integer E0 with 10^E0 <= m*2^e < 10^(E0+1), and
+   the rendered exponent is E0, or E0+1 exactly when the digits round up to 1 0...0 *)
+Theorem C19_exp_exponent : forall m e p, (0 < m)%Z ->
+  let '(ds, E) := exp_parts m e p in
+  let E0 := ilog10 m e in
+  bracket E0 (m * 2 ^ Z.max e 0)%Z (2 ^ Z.max (- e) 0)%Z /\
+  (E = E0 \/ (E = E0 + 1 /\ Z.of_N (str_value ds) = 10 ^ Z.of_N p))%Z.
+Proof. exact exp_exponent_after_carry. Qed.
+
+Theorem C19_exponent_unique : forall E1 E2 num den, (0 < den)%Z ->
+  bracket E1 num den -> bracket E2 num den -> E1 = E2.
+Proof. exact bracket_unique. Qed.
+
+(* ... and [capped_exp] is what render_float_exp decorates *)
+Theorem C19_exp_is_rendered : forall value prec zp plus blank ensure_pt trim uppercase,
+  render_float_exp value prec zp plus blank ensure_pt trim uppercase =
+  obind (capped_exp (f_abs value) prec) (fun de =>
+  let ds := fst de in
+  let mant := match ds with d0 :: rest => if prec =? 0 then [d0] else d0 :: 46 :: rest | [] => [] end in
+  let mant := if negb (prec =? 0) && trim
+              then (if ensure_pt then trim_end_zeros mant else strip_dot_suffix (trim_end_zeros mant))
+              else mant in
+  Ok (decorate_digits
+        (mant ++ (if (prec =? 0) && ensure_pt then [46] else []) ++
+         (if uppercase then 69 else 101) :: exp_suffix (snd de))
+        (is_neg value) zp 0 plus blank)).
+Proof. exact render_float_exp_digits. Qed.
+
+(* %g %G, as coded: which renderer and which precision *)
+Theorem C19_g_selects : forall lf c fwv precv x,
+  (ctype c = CGLower \/ ctype c = CGUpper) ->
+  let fl := flags c in
+  let P := match prec c with Some _ => precv | None => 6 end in
+  let X := if f_is_zero x then 0%Z else lf (f_abs x) in
+  let zp := if fl_zero fl && negb (fl_left fl) then fwv else 0 in
+  do_format_code lf c fwv precv (VNum x) =
+  if (X <? -4)%Z || ((0 <=? X)%Z && (Z.of_N P <=? X)%Z) then
+    render_float_exp x (N.max P 1 - 1) zp (fl_plus fl) (fl_blank fl) (fl_alt fl) (negb (fl_alt fl))
+                     (conv_eqb (ctype c) CGUpper)
+  else
+    render_float_def x
+      (P - (if f_ltb (f_abs x) f_one then 1
+            else match trunc_mag x with
+                 | Some mag => lenN (display_int mag)
+                 | None => lenN (display_abs (f_abs x)) end))
+      zp (fl_plus fl) (fl_blank fl) (fl_alt fl) (negb (fl_alt fl)).
+Proof. exact g_selects. Qed.
+
+(* without #, %g drops the fraction's trailing zeros (and a bare point): same number *)
+Theorem C19_g_trim_keeps_value : forall ip fp, all_digits fp ->
+  exists fp' k,
+    fp = fp' ++ repeatN 48 k /\
+    strip_dot_suffix (trim_end_zeros (ip ++ 46 :: fp)) =
+      (match fp' with [] => ip | _ => ip ++ 46 :: fp' end) /\
+    str_value (ip ++ fp) = str_value (ip ++ fp') * 10 ^ k.
+Proof. exact g_trim_keeps_value. Qed.
+
+(* where the code's %g is NOT C's %g: "%.0g" % 5 = "5e+00" (C: "5"), "%.3g" % 999.9 = "1000"
+   (C: "1e+03" — same number, other notation), "%g" % 0.000123456 = "0.00012" (C:
+   "0.000123456": below 1 only P-1 fraction digits are kept, not P significant digits) *)
+Theorem C19_g_deviations :
+  format_run [37; 46; 48; 103] (ASingle (VNum (f_of_Z 5))) = Ok [53; 101; 43; 48; 48] /\
+  format_run [37; 46; 51; 103] (ASingle (VNum (f_of_bits 0x408f3f3333333333))) = Ok [49; 48; 48; 48] /\
+  format_run [37; 103] (ASingle (VNum (f_of_bits 0x3f202e7ef70994dd))) = Ok [48; 46; 48; 48; 48; 49; 50].
+Proof. exact g_deviations. Qed.
 
 (* ---- non-vacuity: the hypotheses are met by non-trivial values, and the model computes *)
 Example C19_nonvacuous :
@@ -172,6 +239,13 @@ Print Assumptions C19_decimal_exact_below_2p53.
 Print Assumptions C19_fixed_digits_correct.
 Print Assumptions C19_fixed_is_rendered.
 Print Assumptions C19_g_shape.
+Print Assumptions C19_exp_digits_correct.
+Print Assumptions C19_exp_exponent.
+Print Assumptions C19_exponent_unique.
+Print Assumptions C19_exp_is_rendered.
+Print Assumptions C19_g_selects.
+Print Assumptions C19_g_trim_keeps_value.
+Print Assumptions C19_g_deviations.
 Print Assumptions C19_pad_bytes_refuted.
 Print Assumptions C19_fmt_prec_limit.
 Print Assumptions C19_nonvacuous.
